@@ -194,7 +194,7 @@ class C06(Check):
         import shutil
         import tempfile
         res = ShardResult()
-        nex = 4000 if tier == "thorough" else 500
+        nex = 2000 if tier == "thorough" else 500
         cnt = [0]
         H.stats = res
         use_cvc5 = tier == "thorough" and os.path.exists(CVC5)
